@@ -357,15 +357,15 @@ Section Region.
       end
     else inr st.
 
-  (** the Go loop has no fuel; the model gives it 2^201 - 1 iterations and reports [None]
-      beyond (Proofs/C05_*.v: never reached for valid bounds). *)
-  Definition loop_fuel : nat := 200.
+  (** the Go loop has no fuel; the model gives it 2^(201 + number of initial queue entries) - 1
+      iterations and reports [None] beyond (Proofs/C05_Main.v: never reached for valid bounds). *)
+  Definition loop_fuel (st0 : list Z * list qcand) : nat := (200 + length (snd st0))%nat.
 
   Definition coveringInternal (cv : coverer) : option (list Z) :=
     match initialCandidates cv with
     | None => None
     | Some st0 =>
-        match iter2 loop_fuel (cover_step cv) st0 with
+        match iter2 (loop_fuel st0) (cover_step cv) st0 with
         | inl _ => None
         | inr (result, _) =>
             let r := cu_Normalize result in
